@@ -134,8 +134,23 @@ type RunConfig struct {
 	DirReject  string // directories whose name equals this are rejected by the directory filter ("" = no filter)
 	FileReject string // files whose name has this suffix are rejected ("" = no filter)
 	FailPath   string // callback of this path fails
+	FailList   string // ReadDir of this directory fails (a listing error)
 	Work       time.Duration
 }
+
+// failListFS fails ReadDir of one directory.
+type failListFS struct {
+	FS
+	dir string
+}
+
+func (f *failListFS) ReadDir(p string) ([]os.FileInfo, error) {
+	if strings.Trim(clean(p), "/") == f.dir {
+		return nil, fmt.Errorf("injected listing failure of %s", p)
+	}
+	return f.FS.ReadDir(p)
+}
+func (f *failListFS) Filespace(p string) (filesystem.Filespace, error) { return f.FS.Filespace(p) }
 
 // Selected computes the nodes the loop must visit.
 func Selected(c *RunConfig) (sel []string) {
@@ -327,8 +342,12 @@ func RunFree(c *RunConfig, r *rand.Rand, noise bool, w io.Writer) error {
 	if nCons == 0 || nCons > runtime.NumCPU() {
 		nCons = runtime.NumCPU()
 	}
-	rec.Mark(map[string]interface{}{"ev": "reset", "selected": Selected(c), "consumers": nCons, "fail": c.FailPath != ""})
-	loop := NewLoop(base, c, rec, r)
+	rec.Mark(map[string]interface{}{"ev": "reset", "selected": Selected(c), "consumers": nCons, "fail": c.FailPath != "", "faillist": c.FailList != ""})
+	var src FS = base
+	if c.FailList != "" {
+		src = &failListFS{FS: base, dir: c.FailList}
+	}
+	loop := NewLoop(src, c, rec, r)
 	loop.Run("")
 	ok := WaitTimeout(loop, 60*time.Second)
 	if !ok {
